@@ -257,8 +257,9 @@ def run_histories(ctx, flags, quick):
     sims = []
     if not quick:
         _, sims = ctx.simulate_behaviours(
-            "WbemUriHist", "WbemUriHistSim.cfg", 300, 7,
-            label="random histories of length 6")
+            "WbemUriHist", "WbemUriHistSim.cfg", 300, 11,
+            label="random histories of length up to 6 (a Mutate step is "
+            "two states: observation, modification + observation)")
         sims = [[list(st) for st in h] for h in sims if h]
     nex = 500 if quick else 4000
     chosen = stratified(ctx.rng, hists, texts, nex) + sims
